@@ -414,8 +414,20 @@ def names_loaded(node):
             if isinstance(n, ast.Name) and isinstance(n.ctx, ast.Load)}
 
 
+_LOCALS_CACHE = {}
+
+
 def local_names_of(func_node):
     """Parameters and every name bound in the function body (not nested)."""
+    hit = _LOCALS_CACHE.get(id(func_node))
+    if hit is not None and hit[0] is func_node:
+        return hit[1]
+    names = _local_names_of(func_node)
+    _LOCALS_CACHE[id(func_node)] = (func_node, names)
+    return names
+
+
+def _local_names_of(func_node):
     names = set()
     if isinstance(func_node, ast.Lambda):
         a = func_node.args
@@ -444,8 +456,20 @@ def local_names_of(func_node):
     return names
 
 
+_SCOPE_CACHE = {}
+
+
 def scope_locals(fi):
     """Names local to fi or to any enclosing function (closure)."""
+    hit = _SCOPE_CACHE.get(id(fi))
+    if hit is not None and hit[0] is fi:
+        return hit[1]
+    names = _scope_locals(fi)
+    _SCOPE_CACHE[id(fi)] = (fi, names)
+    return names
+
+
+def _scope_locals(fi):
     names = set()
     f = fi
     while f is not None:
